@@ -125,9 +125,10 @@ func genC08(seed uint64, idx int) *plan {
 	p.thr = []int{0, 0, 0, 2, 3}[r.intn(5)]
 	const maxEpoch = 5
 	scripted := idx%3 == 0
-	forceFirst = scripted
+	expiring := idx%6 == 3 // scripted variant: the locked object expires while its lock lives on
+	forceFirst, forceExp = scripted, expiring
 	p.u = newUniverse(r, 3, 1, 3, 3, maxEpoch)
-	forceFirst = false
+	forceFirst, forceExp = false, false
 	// make tombstones and locks collide on few targets
 	nobj := len(p.u.objs)
 	epoch := 0
@@ -147,14 +148,35 @@ func genC08(seed uint64, idx int) *plan {
 		// the lock broadcast misses one shard (put failure or read-only), then a tombstone
 		// for the same object is attempted, then every shard runs a GC pass
 		sh := r.intn(p.n)
+		// with three shards the lock sometimes misses two of them (a rollback then has
+		// to undo the tombstone on more than one shard)
+		sh2 := -1
+		if p.n == 3 && r.coin(1, 2) {
+			sh2 = (sh + 1) % p.n
+		}
 		p.ops = append(p.ops, absOp{op: "put", i: 0})
 		if r.coin(1, 2) {
 			p.ops = append(p.ops, absOp{op: "fault", i: sh, a: 0, b: 1})
 		} else {
 			p.ops = append(p.ops, absOp{op: "mode", i: sh, a: 1})
 		}
+		if sh2 >= 0 {
+			p.ops = append(p.ops, absOp{op: "mode", i: sh2, a: 1})
+		}
 		p.ops = append(p.ops, absOp{op: "put", i: locks[0]}, absOp{op: "get", i: 0})
 		p.ops = append(p.ops, absOp{op: "fault", i: sh}, absOp{op: "mode", i: sh, a: 0})
+		if sh2 >= 0 {
+			p.ops = append(p.ops, absOp{op: "mode", i: sh2, a: 0})
+		}
+		if expiring {
+			// the object expires; only the engine-wide lock check keeps it
+			epoch = 2
+			p.ops = append(p.ops, absOp{op: "newepoch", a: epoch})
+			for s := 0; s < p.n; s++ {
+				p.ops = append(p.ops, absOp{op: "gcx", i: s})
+			}
+			p.ops = append(p.ops, absOp{op: "get", i: 0})
+		}
 		p.ops = append(p.ops, absOp{op: "put", i: tss[0]}, absOp{op: "get", i: 0})
 		for s := 0; s < p.n; s++ {
 			p.ops = append(p.ops, absOp{op: "gcx", i: s})
